@@ -20,11 +20,11 @@ ASSUMPTIONS = [
     "solves are compared with the fresh op only on problems that are well posed by construction (every variable boxed on both sides, at most one equality constraint, no constant-only equality): solvers.lp documents the rank conditions and an unbounded or rank-deficient problem has no unique outcome",
     "status 'unknown' or the documented rank-deficiency ValueError of solvers.lp on only one side of a solve comparison is counted, not judged",
 ]
-STEPS = ["add", "del-member", "del-nonmember", "add-twice", "objective", "solve"]
+STEPS = ["add", "del-member", "del-nonmember", "add-twice", "objective", "objective-inplace", "solve"]
 REQUIRED_COUNTERS = ["step." + s for s in STEPS] + [
     "check.variables", "check.lists", "check.copies", "check.solve-vs-fresh", "check.values-after-solve", "solve.optimal",
     "mech.del-last-user-of-variable", "mech.del-shared-variable", "mech.del-multi-variable-constraint",
-    "mech.objective-only-variable", "mech.constant-only-constraint", "mech.objective-variable-also-constrained"]
+    "mech.objective-only-variable", "mech.objective-inplace-brings-new-variable", "mech.constant-only-constraint", "mech.objective-variable-also-constrained"]
 
 
 def plan(tier):
@@ -250,7 +250,7 @@ def run(ctx):
         for s in range(nsteps):
             members = list(model.cons)
             nonmembers = [i for i, (d, _, _) in enumerate(pool) if not any(d is m for m in members)]
-            kind = rng.choice(["add"] * 7 + ["del-member"] * 5 + ["del-nonmember"] * 2 + ["add-twice"] * 1 + ["objective"] * 3 + ["solve"] * 4)
+            kind = rng.choice(["add"] * 7 + ["del-member"] * 5 + ["del-nonmember"] * 2 + ["add-twice"] * 1 + ["objective"] * 3 + ["objective-inplace"] * 2 + ["solve"] * 4)
             if kind == "add" and not nonmembers:
                 kind = "del-member"
             if kind in ("del-member", "add-twice") and not members:
@@ -310,6 +310,24 @@ def run(ctx):
                     if any(users(v) == 0 for v in old) or any(users(v) == 0 for v in as_function(objs[j][0]).variables()):
                         mechs.add("objective-only"); ctx.count("mech.objective-only-variable")
                     p.objective = objs[j][0]; model.obj = objs[j][0]
+                elif kind == "objective-inplace":
+                    # p.objective += t / -= t: Python reads the attribute, applies the in-place operator to what it got
+                    # (possibly mutating the stored function) and assigns the result back through the setter
+                    iv = rng.randrange(len(vs))
+                    v_ = vs[iv]
+                    coef = rng.choice([2.0, -1.5, 1.0])
+                    sign = rng.choice(["+=", "-="])
+                    term = coef * v_[rng.randrange(len(v_))]
+                    hist.append("p.objective %s %g*v%d[k]" % (sign, coef, iv))
+                    base_ = +model.obj if type(model.obj) is M.variable else model.obj
+                    exp_obj = (base_ + term) if sign == "+=" else (base_ - term)
+                    if users(v_) == 0 and not any(w is v_ for w in as_function(model.obj).variables()):
+                        mechs.add("objective-inplace-new-variable"); ctx.count("mech.objective-inplace-brings-new-variable")
+                    if sign == "+=":
+                        p.objective += term
+                    else:
+                        p.objective -= term
+                    model.obj = exp_obj
                 else:
                     hist.append("p.solve()")
                     # the values left by earlier solves of this history stay in place: solve() has to overwrite them
@@ -389,7 +407,7 @@ def run(ctx):
                 c.fail(key, "step %d (%s) raised %s: %s" % (s, hist[-1], type(e).__name__, e))
                 return
             step = {"add": "addconstraint", "del-member": "delconstraint", "del-nonmember": "delconstraint-nonmember",
-                    "add-twice": "addconstraint-twice", "objective": "objective-assignment", "solve": "solve"}[kind]
+                    "add-twice": "addconstraint-twice", "objective": "objective-assignment", "objective-inplace": "objective-inplace", "solve": "solve"}[kind]
             nf = len(c.failed)
             if not compare(step):
                 # name the mechanism of the two known-by-reading shapes (diagnostic only)
